@@ -68,7 +68,14 @@ fn check_ff_state(ctx: &mut Ctx, rng: &mut Rng, e: &Env, m: &mut Matcher, hist: 
             }
             let mask = match e1.compute_mask() {
                 Ok(x) => x,
-                Err(_) => return Err(("byte_engine_mask_error_inside_forced".into(), json!({"forced": bytes_dbg(&ffb), "pos": i}))),
+                Err(_) => {
+                    let h: Vec<u32> = bytes.iter().chain(ffb[..i].iter()).map(|&x| x as u32).collect();
+                    if resource_stop_on_replay(e.f1, e.g, &h) {
+                        ctx.rep.inconclusive("resource_stop");
+                        return Ok(());
+                    }
+                    return Err(("byte_engine_mask_error_inside_forced".into(), json!({"forced": bytes_dbg(&ffb), "pos": i})));
+                }
             };
             let allowed = mask_list(&mask, e.v1.n());
             if allowed != vec![b as u32] {
@@ -296,9 +303,16 @@ fn case_prompt(ctx: &mut Ctx, idx: u64, rng: &mut Rng, e: &Env) {
     }
     // and generation continues consistently: the first mask after the prompt equals that of a matcher
     // whose forced bytes are still pending
+    // (the Matcher folds failures into InternalError: keep a bare parser to see a resource-limit stop)
+    let mut bare = p.deep_clone();
     let mut mp = Matcher::new(Ok(p));
     let a = mp.compute_mask().ok().map(|x| mask_list(&x, e.v.n()));
-    if a.is_none() && !is_resource_stop(&mp) && !f0.contains(&0xFF) {
+    let resource = a.is_none() && {
+        use llguidance::api::StopReason::*;
+        let _ = std::panic::catch_unwind(std::panic::AssertUnwindSafe(|| bare.compute_mask().is_ok()));
+        matches!(bare.stop_reason(), LexerTooComplex | ParserTooComplex | MaxTokensTotal | MaxTokensParser)
+    };
+    if a.is_none() && !resource && !f0.contains(&0xFF) {
         let d = json!({"case": pool::describe(ctx, e.g, e.v), "prompt_text": bytes_dbg(&text), "returned_prompt": res, "error": mp.get_error()});
         let rp = ctx.replay(idx);
         ctx.rep.violation("mask_error_after_prompt", &e.g.tags, d, rp);
